@@ -346,6 +346,9 @@ def main(argv):
             rc = 3
         if nviol:
             rc = 1
+        if chk.id == "SELF":
+            log("[SELF] failures=%d" % len(failures))
+            return rc
         ev = json.load(open(os.path.join(VERIF, "evidence", chk.id + ".json")))
         c = ev["coverage"]
         log("[%s %s] evaluations=%d distinct=%d states=%s transitions=%s exhaustive=%s violations=%d wall=%.1fs" % (
